@@ -39,10 +39,21 @@ pub struct C05Plan {
     /// that picture ended on, behind a committed buffer).
     #[serde(default)]
     pub shared_reader: bool,
+    /// Short-read knob (0 = unlimited): every source of the scenario hands out at
+    /// most this many bytes per read.
+    #[serde(default)]
+    pub max_chunk: usize,
 }
 
 fn build(opts: u8, prefix: &[PlanPic]) -> Result<Slot, String> {
+    build_chunked(opts, prefix, 0)
+}
+
+fn build_chunked(opts: u8, prefix: &[PlanPic], max_chunk: usize) -> Result<Slot, String> {
     let mut s = Slot::new(opts);
+    if max_chunk > 0 {
+        s.set_max_chunk(max_chunk);
+    }
     for (i, p) in prefix.iter().enumerate() {
         s.new_reader();
         s.feed(&p.bytes);
@@ -60,7 +71,7 @@ fn build(opts: u8, prefix: &[PlanPic]) -> Result<Slot, String> {
 fn prep(plan: &C05Plan) -> Result<Slot, String> {
     if plan.shared_reader && !plan.prefix.is_empty() {
         let n = plan.prefix.len();
-        let mut s = build(plan.opts, &plan.prefix[..n - 1])?;
+        let mut s = build_chunked(plan.opts, &plan.prefix[..n - 1], plan.max_chunk)?;
         s.new_reader();
         s.feed(&plan.prefix[n - 1].bytes);
         let o = s.decode();
@@ -69,7 +80,7 @@ fn prep(plan: &C05Plan) -> Result<Slot, String> {
         }
         Ok(s)
     } else {
-        let mut s = build(plan.opts, &plan.prefix)?;
+        let mut s = build_chunked(plan.opts, &plan.prefix, plan.max_chunk)?;
         s.new_reader();
         Ok(s)
     }
@@ -710,6 +721,7 @@ pub fn gen_c05(rng: &mut Rng, tier: Tier) -> C05Plan {
         only: vec![],
         io_kinds: vec![*rng.pick(&SrcFault::HARD)],
         shared_reader: rng.chance(1, 3),
+        max_chunk: *rng.pick(&[0usize, 0, 0, 1, 2, 3, 7]),
     }
 }
 
